@@ -45,9 +45,11 @@ VARIABLES
   dv,      \* derivation events in pre-order (what the typed tree stores): rule / leaf / alt / opt / rep / iter /
            \* seq / elem / push records, patched on success, truncated on failure
   log,     \* ghost: every invocation of a non-silent rule [r, at, ok]
+  evs,     \* ghost: the events the instrumented runtime emits (hooks behind --cfg pest_typed_verif): rule enter / exit,
+           \* attempt begin / end and predicate begin / end with the stack contents, PUSH; never truncated
   fin      \* results collected at the end of the partial phase
 
-mvars == <<pc, cur, ok, pos, stk, K, at, look, dep, toks, calls, cdep, trk, skp, dv, log, fin>>
+mvars == <<pc, cur, ok, pos, stk, K, at, look, dep, toks, calls, cdep, trk, skp, dv, log, evs, fin>>
 vars == <<cfg, mvars>>
 
 StackBound == 400
@@ -123,17 +125,24 @@ DvIdx == IF DvOn THEN Len(dv) + 1 ELSE 0
 DvApp(q, ev) == IF DvOn THEN Append(q, ev @@ [d |-> cdep]) ELSE q
 LeafKind == IF cur.t = "call" THEN cur.n ELSE cur.t
 UTrk == UNCHANGED <<trk, skp, log>>
+UEv == UNCHANGED evs
+TB(s) == <<"t+", s>>
+TE(b, s) == <<"t-", b, s>>
+Both == HasWS /\ HasCM
 
 Leaf(b, p) == /\ pc' = "ret" /\ ok' = b /\ pos' = p
+              /\ dv' = (IF b THEN DvApp(dv, [k |-> "leaf", r |-> LeafKind, s |-> pos, e |-> p]) ELSE dv)
+              /\ UNCHANGED <<cur, K, stk>> /\ UEnv /\ UTree /\ UTrk /\ UEv
+LeafE(b, p, ev) == /\ pc' = "ret" /\ ok' = b /\ pos' = p /\ evs' = evs \o ev
               /\ dv' = (IF b THEN DvApp(dv, [k |-> "leaf", r |-> LeafKind, s |-> pos, e |-> p]) ELSE dv)
               /\ UNCHANGED <<cur, K, stk>> /\ UEnv /\ UTree /\ UTrk
 LeafS(b, p, s) == /\ pc' = "ret" /\ ok' = b /\ pos' = p /\ stk' = s
                   /\ dv' = (IF b THEN DvApp(dv, [k |-> "leaf", r |-> LeafKind, s |-> pos, e |-> p]) ELSE dv)
-                  /\ UNCHANGED <<cur, K>> /\ UEnv /\ UTree /\ UTrk
+                  /\ UNCHANGED <<cur, K>> /\ UEnv /\ UTree /\ UTrk /\ UEv
 \* a failing stack built-in that reports a special error (only on the main tracker)
 LeafErr(what) == /\ pc' = "ret" /\ ok' = FALSE
                  /\ trk' = (IF skp = 0 THEN TrkSpecial(trk, pos, what) ELSE trk)
-                 /\ UNCHANGED <<cur, K, stk, pos, skp, log>> /\ UEnv /\ UTree /\ UDv
+                 /\ UNCHANGED <<cur, K, stk, pos, skp, log>> /\ UEnv /\ UTree /\ UDv /\ UEv
 
 Evaluating(t) == pc = "eval" /\ cur.t = t
 CallOf(n) == pc = "eval" /\ cur.t = "call" /\ cur.n = n /\ ~HasRule(n)
@@ -161,8 +170,20 @@ MatchInsens == Evaluating("insens") /\
 MatchRange == Evaluating("range") /\
   IF pos < Hi /\ cur.lo <= Full[pos + 1] /\ Full[pos + 1] <= cur.hi THEN Leaf(TRUE, pos + 1) ELSE Leaf(FALSE, pos)
 
+\* three ASCII classes are library choices over ranges (Choice2 / Choice3), so matching them goes through attempts
+InR(lo, hi) == pos < Hi /\ lo <= Full[pos + 1] /\ Full[pos + 1] <= hi
+RECURSIVE ChoiceEv(_, _)
+\* alts: sequence of [ev, ok]; events of trying them in order until one succeeds
+ChoiceEv(alts, i) == IF i > Len(alts) THEN <<>>
+                     ELSE <<TB(stk)>> \o alts[i].ev \o <<TE(alts[i].ok, stk)>> \o (IF alts[i].ok THEN <<>> ELSE ChoiceEv(alts, i + 1))
+Rng(lo, hi) == [ev |-> <<>>, ok |-> InR(lo, hi)]
+AlphaAlts == <<Rng(97, 122), Rng(65, 90)>>
+ClassEv(n) == CASE n = "ASCII_ALPHA" -> ChoiceEv(AlphaAlts, 1)
+                [] n = "ASCII_ALPHANUMERIC" -> ChoiceEv(<<[ev |-> ChoiceEv(AlphaAlts, 1), ok |-> InR(97, 122) \/ InR(65, 90)], Rng(48, 57)>>, 1)
+                [] n = "ASCII_HEX_DIGIT" -> ChoiceEv(<<Rng(48, 57), Rng(97, 102), Rng(65, 70)>>, 1)
+                [] OTHER -> <<>>
 CharClass == pc = "eval" /\ cur.t = "call" /\ ~HasRule(cur.n) /\ (cur.n = "ANY" \/ IsClass(cur.n)) /\
-  IF pos < Hi /\ (cur.n = "ANY" \/ InClass(cur.n, Full[pos + 1])) THEN Leaf(TRUE, pos + 1) ELSE Leaf(FALSE, pos)
+  IF pos < Hi /\ (cur.n = "ANY" \/ InClass(cur.n, Full[pos + 1])) THEN LeafE(TRUE, pos + 1, ClassEv(cur.n)) ELSE LeafE(FALSE, pos, ClassEv(cur.n))
 
 Soi == CallOf("SOI") /\ Leaf(pos = Lo, pos)
 
@@ -206,24 +227,24 @@ UndefinedSkipRule == pc = "eval" /\ cur.t = "call" /\ ~HasRule(cur.n) /\ IsSkipR
 
 SeqEnter == Evaluating("seq") /\ Enter([f |-> "seq", xs |-> cur.xs, i |-> 1, vi |-> DvIdx, ei |-> IF DvOn THEN Len(dv) + 2 ELSE 0], cur.xs[1])
             /\ dv' = DvApp(DvApp(dv, [k |-> "seq", s |-> pos, e |-> pos, n |-> Len(cur.xs)]), [k |-> "elem", i |-> 1, s |-> pos, m |-> pos, e |-> pos])
-            /\ UNCHANGED <<ok, pos, stk>> /\ UEnv /\ UTree /\ UTrk
+            /\ UNCHANGED <<ok, pos, stk>> /\ UEnv /\ UTree /\ UTrk /\ UEv
 
 SeqElemOk == Returning("seq") /\ ok /\
   IF Top.i = Len(Top.xs)
   THEN PopRet(TRUE) /\ dv' = Patch(Patch(dv, Top.ei, "e", pos), Top.vi, "e", pos)
-       /\ UNCHANGED <<cur, pos, stk>> /\ UEnv /\ UTree /\ UTrk
+       /\ UNCHANGED <<cur, pos, stk>> /\ UEnv /\ UTree /\ UTrk /\ UEv
   ELSE /\ pc' = "eval" /\ cur' = SkipExpr
        /\ K' = <<[f |-> "seqskip", xs |-> Top.xs, i |-> Top.i, vi |-> Top.vi, ss |-> pos]>> \o Below
        /\ dv' = Patch(dv, Top.ei, "e", pos)
-       /\ UNCHANGED <<ok, pos, stk>> /\ UEnv /\ UTree /\ UTrk
+       /\ UNCHANGED <<ok, pos, stk>> /\ UEnv /\ UTree /\ UTrk /\ UEv
 
 SeqSkipDone == Returning("seqskip") /\
   /\ pc' = "eval" /\ cur' = Top.xs[Top.i + 1]
   /\ K' = <<[f |-> "seq", xs |-> Top.xs, i |-> Top.i + 1, vi |-> Top.vi, ei |-> DvIdx]>> \o Below
   /\ dv' = DvApp(dv, [k |-> "elem", i |-> Top.i + 1, s |-> Top.ss, m |-> pos, e |-> pos])
-  /\ UNCHANGED <<ok, pos, stk>> /\ UEnv /\ UTree /\ UTrk
+  /\ UNCHANGED <<ok, pos, stk>> /\ UEnv /\ UTree /\ UTrk /\ UEv
 
-SeqFail == Returning("seq") /\ ~ok /\ PopRet(FALSE) /\ dv' = Cut(dv, Top.vi) /\ UNCHANGED <<cur, pos, stk>> /\ UEnv /\ UTree /\ UTrk
+SeqFail == Returning("seq") /\ ~ok /\ PopRet(FALSE) /\ dv' = Cut(dv, Top.vi) /\ UNCHANGED <<cur, pos, stk>> /\ UEnv /\ UTree /\ UTrk /\ UEv
 
 --------------------------------------------------------------------------
 (* Choice (main/src/choices.rs): every alternative inside restore_on_none *)
@@ -231,15 +252,19 @@ SeqFail == Returning("seq") /\ ~ok /\ PopRet(FALSE) /\ dv' = Cut(dv, Top.vi) /\ 
 AltEnter == Evaluating("alt") /\
   LET dv2 == DvApp(dv, [k |-> "alt", s |-> pos, e |-> pos, i |-> 0, n |-> Len(cur.xs)]) IN
   /\ Enter([f |-> "alt", xs |-> cur.xs, i |-> 1, vi |-> DvIdx] @@ SavedV(Len(dv2)), cur.xs[1]) /\ dv' = dv2
+  /\ evs' = Append(evs, TB(stk))
   /\ UNCHANGED <<ok, pos, stk>> /\ UEnv /\ UTree /\ UTrk
 
 AltOk == Returning("alt") /\ ok /\ PopRet(TRUE) /\ dv' = Patch(Patch(dv, Top.vi, "i", Top.i - 1), Top.vi, "e", pos)
+         /\ evs' = Append(evs, TE(TRUE, stk))
          /\ UNCHANGED <<cur, pos, stk>> /\ UEnv /\ UTree /\ UTrk
 
 AltFail == Returning("alt") /\ ~ok /\
   (IF Top.i < Len(Top.xs)
    THEN /\ Restore(Top) /\ pc' = "eval" /\ cur' = Top.xs[Top.i + 1] /\ K' = <<[Top EXCEPT !.i = @ + 1]>> \o Below /\ UNCHANGED ok
-   ELSE Restore([Top EXCEPT !.v0 = IF Top.vi > 0 THEN Top.vi - 1 ELSE Top.v0]) /\ PopRet(FALSE) /\ UNCHANGED cur)
+        /\ evs' = evs \o <<TE(FALSE, Top.s0), TB(Top.s0)>>
+   ELSE /\ Restore([Top EXCEPT !.v0 = IF Top.vi > 0 THEN Top.vi - 1 ELSE Top.v0]) /\ PopRet(FALSE) /\ UNCHANGED cur
+        /\ evs' = Append(evs, TE(FALSE, Top.s0)))
   /\ UNCHANGED <<at, look, dep, cdep>> /\ UEnv /\ UTrk
 
 --------------------------------------------------------------------------
@@ -248,15 +273,17 @@ AltFail == Returning("alt") /\ ~ok /\
 OptEnter == Evaluating("opt") /\
   LET dv2 == DvApp(dv, [k |-> "opt", s |-> pos, e |-> pos, i |-> 0]) IN
   /\ Enter([f |-> "opt", vi |-> DvIdx] @@ SavedV(Len(dv2)), cur.e) /\ dv' = dv2
+  /\ evs' = Append(evs, TB(stk))
   /\ UNCHANGED <<ok, pos, stk>> /\ UEnv /\ UTree /\ UTrk
 OptOk == Returning("opt") /\ ok /\ PopRet(TRUE) /\ dv' = Patch(Patch(dv, Top.vi, "i", 1), Top.vi, "e", pos)
+         /\ evs' = Append(evs, TE(TRUE, stk))
          /\ UNCHANGED <<cur, pos, stk>> /\ UEnv /\ UTree /\ UTrk
-OptFail == Returning("opt") /\ ~ok /\ Restore(Top) /\ PopRet(TRUE)
+OptFail == Returning("opt") /\ ~ok /\ Restore(Top) /\ PopRet(TRUE) /\ evs' = Append(evs, TE(FALSE, Top.s0))
            /\ UNCHANGED <<cur, at, look, dep, cdep>> /\ UEnv /\ UTrk
 
 \* RestoreOnErr of pest's optimizer is transparent (every attempt restores anyway)
 RestoreNode == Evaluating("restore") /\ pc' = "eval" /\ cur' = cur.e
-               /\ UNCHANGED <<ok, pos, stk, K>> /\ UEnv /\ UTree /\ UTrk /\ UDv
+               /\ UNCHANGED <<ok, pos, stk, K>> /\ UEnv /\ UTree /\ UTrk /\ UDv /\ UEv
 
 --------------------------------------------------------------------------
 (* Repetition (predefined_node/repetition.rs): unit = [skip iff i > 0] element,   *)
@@ -266,37 +293,39 @@ RestoreNode == Evaluating("restore") /\ pc' = "eval" /\ cur' = cur.e
 \* MAX reached ends the repetition: it succeeds iff at least MIN iterations matched.
 RepFrame(e, i, vi, q) == [f |-> "rep", e |-> e, i |-> i, ph |-> "elem", vi |-> vi, ii |-> IF DvOn THEN Len(q) + 1 ELSE 0] @@ SavedV(Len(q))
 
-RepBegin(e, i, vi, q, below) ==
+RepBegin(e, i, vi, q, below, ev) ==
   IF e.max >= 0 /\ i >= e.max
   THEN /\ pc' = "ret" /\ ok' = (i >= e.min) /\ K' = below /\ dv' = (IF i >= e.min THEN q ELSE Cut(q, vi)) /\ UNCHANGED cur
+       /\ evs' = evs \o ev
   ELSE /\ dv' = DvApp(q, [k |-> "iter", i |-> i, s |-> pos, m |-> pos, e |-> pos])
+       /\ evs' = evs \o ev \o <<TB(stk)>>
        /\ IF i = 0
           THEN /\ pc' = "eval" /\ cur' = e.e /\ K' = <<RepFrame(e, i, vi, q)>> \o below /\ UNCHANGED ok
           ELSE /\ pc' = "eval" /\ cur' = SkipExpr /\ K' = <<[RepFrame(e, i, vi, q) EXCEPT !.ph = "skip"]>> \o below /\ UNCHANGED ok
 
-RepEnter == Evaluating("rep") /\ RepBegin(cur, 0, DvIdx, DvApp(dv, [k |-> "rep", s |-> pos, e |-> pos, n |-> 0]), K)
+RepEnter == Evaluating("rep") /\ RepBegin(cur, 0, DvIdx, DvApp(dv, [k |-> "rep", s |-> pos, e |-> pos, n |-> 0]), K, <<>>)
             /\ UNCHANGED <<pos, stk>> /\ UEnv /\ UTree /\ UTrk
 
 RepSkipDone == Returning("rep") /\ Top.ph = "skip" /\
   /\ pc' = "eval" /\ cur' = Top.e.e /\ K' = <<[Top EXCEPT !.ph = "elem"]>> \o Below
   /\ dv' = Patch(dv, Top.ii, "m", pos)
-  /\ UNCHANGED <<ok, pos, stk>> /\ UEnv /\ UTree /\ UTrk
+  /\ UNCHANGED <<ok, pos, stk>> /\ UEnv /\ UTree /\ UTrk /\ UEv
 
 \* an unbounded repetition whose iteration succeeded without changing cursor or stack repeats forever
 NoProgress == pos = Top.p0 /\ stk = Top.s0
 
 RepIterOk == Returning("rep") /\ Top.ph = "elem" /\ ok /\ ~(Top.e.max < 0 /\ NoProgress) /\
   RepBegin(Top.e, Top.i + 1, Top.vi,
-           Patch(Patch(Patch(dv, Top.ii, "e", pos), Top.vi, "n", Top.i + 1), Top.vi, "e", pos), Below)
+           Patch(Patch(Patch(dv, Top.ii, "e", pos), Top.vi, "n", Top.i + 1), Top.vi, "e", pos), Below, <<TE(TRUE, stk)>>)
   /\ UNCHANGED <<pos, stk>> /\ UEnv /\ UTree /\ UTrk
 
 RepDiverge == Returning("rep") /\ Top.ph = "elem" /\ ok /\ Top.e.max < 0 /\ NoProgress /\
-  pc' = "diverged" /\ UNCHANGED <<cur, ok, pos, stk, K>> /\ UEnv /\ UTree /\ UTrk /\ UDv
+  pc' = "diverged" /\ UNCHANGED <<cur, ok, pos, stk, K>> /\ UEnv /\ UTree /\ UTrk /\ UDv /\ UEv
 
 \* the failed unit (skip included) is given back; fewer than MIN iterations: the repetition fails
 RepIterFail == Returning("rep") /\ Top.ph = "elem" /\ ~ok /\
   Restore(IF Top.i >= Top.e.min \/ Top.vi = 0 THEN Top ELSE [Top EXCEPT !.v0 = Top.vi - 1]) /\
-  PopRet(Top.i >= Top.e.min) /\ UNCHANGED <<cur, at, look, dep, cdep>> /\ UEnv /\ UTrk
+  PopRet(Top.i >= Top.e.min) /\ evs' = Append(evs, TE(FALSE, Top.s0)) /\ UNCHANGED <<cur, at, look, dep, cdep>> /\ UEnv /\ UTrk
 
 --------------------------------------------------------------------------
 (* Predicates: cursor and stack always restored, no tokens; the tracker polarity is SET *)
@@ -305,6 +334,7 @@ PredEnter == (Evaluating("pos") \/ Evaluating("neg")) /\
   /\ Enter([f |-> "pred", neg |-> cur.t = "neg", tp |-> trk.positive] @@ Saved, cur.e)
   /\ look' = look + 1
   /\ trk' = [trk EXCEPT !.positive = (cur.t = "pos")]
+  /\ evs' = Append(evs, <<"p+", cur.t = "neg", stk>>)
   /\ UNCHANGED <<ok, pos, stk, at, dep, toks, calls, cdep, skp, log>> /\ UEnv /\ UDv
 
 PredExit == Returning("pred") /\
@@ -314,6 +344,7 @@ PredExit == Returning("pred") /\
   /\ look' = look - 1
   /\ trk' = [trk EXCEPT !.positive = Top.tp]
   /\ pc' = "ret" /\ ok' = (IF Top.neg THEN ~ok ELSE ok) /\ K' = Below
+  /\ evs' = Append(evs, <<"p-", ok, Top.s0>>)
   /\ UNCHANGED <<cur, at, dep, cdep, skp, log>> /\ UEnv
 
 --------------------------------------------------------------------------
@@ -338,6 +369,7 @@ RuleEnter == pc = "eval" /\ cur.t = "call" /\ HasRule(cur.n) /\
                   ELSE Append(calls, [r |-> cur.n, s |-> pos, e |-> pos, d |-> cdep, sil |-> rl.ty = "silent"]))
      /\ cdep' = (IF inskip THEN cdep ELSE cdep + 1)
      /\ trk' = (IF rec /\ Tracked THEN TrkPush(trk, cur.n, pos) ELSE trk)
+     /\ evs' = (IF rec THEN Append(evs, <<"r+", cur.n, pos>>) ELSE evs)
      /\ UNCHANGED <<ok, pos, stk, look, skp, log>> /\ UEnv
 
 RuleExit == Returning("rule") /\
@@ -349,6 +381,7 @@ RuleExit == Returning("rule") /\
   /\ dv' = (IF ~ok THEN Cut(dv, Top.vi) ELSE Patch(dv, Top.vi, "e", pos))
   /\ trk' = (IF Top.rec /\ Tracked THEN TrkPop(trk, Top.n, Top.p0, ok) ELSE trk)
   /\ log' = (IF Top.rec THEN Append(log, [r |-> Top.n, at |-> Top.p0, ok |-> ok]) ELSE log)
+  /\ evs' = (IF Top.rec THEN Append(evs, <<"r-", Top.n, Top.p0, ok>>) ELSE evs)
   /\ UNCHANGED <<cur, pos, stk, look, skp>> /\ UEnv
 
 \* the built-in EOI is generated through rule_eoi!: a (childless) rule for the tracker and a token
@@ -361,6 +394,7 @@ EoiRule == CallOf("EOI") /\
   /\ trk' = (IF Tracked THEN TrkPop(TrkPush(trk, "EOI", pos), "EOI", pos, b) ELSE trk)
   /\ log' = Append(log, [r |-> "EOI", at |-> pos, ok |-> b])
   /\ dv' = (IF b THEN DvApp(dv, [k |-> "leaf", r |-> "EOI", s |-> pos, e |-> pos]) ELSE dv)
+  /\ evs' = evs \o <<<<"r+", "EOI", pos>>, <<"r-", "EOI", pos, b>>>>
   /\ UNCHANGED <<cur, pos, stk, K, at, look, dep, cdep, skp>> /\ UEnv
 
 --------------------------------------------------------------------------
@@ -368,9 +402,10 @@ EoiRule == CallOf("EOI") /\
 
 PushEnter == Evaluating("push") /\ Enter([f |-> "push", p0 |-> pos, vi |-> DvIdx], cur.e)
              /\ dv' = DvApp(dv, [k |-> "push", s |-> pos, e |-> pos])
-             /\ UNCHANGED <<ok, pos, stk>> /\ UEnv /\ UTree /\ UTrk
+             /\ UNCHANGED <<ok, pos, stk>> /\ UEnv /\ UTree /\ UTrk /\ UEv
 PushExit == Returning("push") /\ PopRet(ok) /\ stk' = (IF ok THEN Append(stk, <<Top.p0, pos>>) ELSE stk)
             /\ dv' = (IF ok THEN Patch(dv, Top.vi, "e", pos) ELSE Cut(dv, Top.vi))
+            /\ evs' = (IF ok THEN Append(evs, <<"st", Append(stk, <<Top.p0, pos>>)>>) ELSE evs)
             /\ UNCHANGED <<cur, pos>> /\ UEnv /\ UTree /\ UTrk
 
 --------------------------------------------------------------------------
@@ -378,32 +413,38 @@ PushExit == Returning("push") /\ PopRet(ok) /\ stk' = (IF ok THEN Append(stk, <<
 (* Only in non-atomic context; each iteration is an attempt.                                              *)
 
 SkipNone == Evaluating("skip") /\ (at # "N" \/ ~(HasWS \/ HasCM)) /\
-  pc' = "ret" /\ ok' = TRUE /\ UNCHANGED <<cur, pos, stk, K>> /\ UEnv /\ UTree /\ UTrk /\ UDv
+  pc' = "ret" /\ ok' = TRUE /\ UNCHANGED <<cur, pos, stk, K>> /\ UEnv /\ UTree /\ UTrk /\ UDv /\ UEv
 
+\* Skipped<'i> = AtomicRepeat<X>: every iteration is an attempt; with both rules X = Choice2<WHITESPACE, COMMENT>,
+\* whose alternatives are attempts too
+SkipOpen == IF Both THEN <<TB(stk), TB(stk)>> ELSE <<TB(stk)>>
 SkipTry(below) ==
   LET first == IF HasWS THEN "WHITESPACE" ELSE "COMMENT" IN
   /\ pc' = "eval" /\ cur' = [t |-> "call", n |-> first]
   /\ K' = <<[f |-> "skip", which |-> first] @@ Saved>> \o below
 
 SkipBegin == Evaluating("skip") /\ at = "N" /\ (HasWS \/ HasCM) /\
-  SkipTry(K) /\ skp' = skp + 1 /\ UNCHANGED <<ok, pos, stk, trk, log>> /\ UEnv /\ UTree /\ UDv
+  SkipTry(K) /\ skp' = skp + 1 /\ evs' = evs \o SkipOpen /\ UNCHANGED <<ok, pos, stk, trk, log>> /\ UEnv /\ UTree /\ UDv
 
 \* WHITESPACE failed: restore, try COMMENT
 SkipWSFail == Returning("skip") /\ ~ok /\ Top.which = "WHITESPACE" /\ HasCM /\ Restore(Top) /\
   /\ pc' = "eval" /\ cur' = [t |-> "call", n |-> "COMMENT"] /\ K' = <<[Top EXCEPT !.which = "COMMENT"]>> \o Below
+  /\ evs' = evs \o <<TE(FALSE, Top.s0), TB(Top.s0)>>
   /\ UNCHANGED <<ok, at, look, dep, cdep>> /\ UEnv /\ UTrk
 
 SkipIterOk == Returning("skip") /\ ok /\ ~NoProgress /\
-  SkipTry(Below) /\ UNCHANGED <<ok, pos, stk>> /\ UEnv /\ UTree /\ UTrk /\ UDv
+  SkipTry(Below) /\ evs' = evs \o (IF Both THEN <<TE(TRUE, stk), TE(TRUE, stk)>> ELSE <<TE(TRUE, stk)>>) \o SkipOpen
+  /\ UNCHANGED <<ok, pos, stk>> /\ UEnv /\ UTree /\ UTrk /\ UDv
 
 SkipDiverge == Returning("skip") /\ ok /\ NoProgress /\
-  pc' = "diverged" /\ UNCHANGED <<cur, ok, pos, stk, K>> /\ UEnv /\ UTree /\ UTrk /\ UDv
+  pc' = "diverged" /\ UNCHANGED <<cur, ok, pos, stk, K>> /\ UEnv /\ UTree /\ UTrk /\ UDv /\ UEv
 
 \* last alternative failed: restore that attempt, the skip ends (it never fails).
 \* Tokens of the skipped rules stay (they appear before the following element);
 \* inside a predicate the enclosing PredExit drops them.
 SkipEnd == Returning("skip") /\ ~ok /\ (Top.which = "COMMENT" \/ ~HasCM) /\ Restore(Top) /\
-  PopRet(TRUE) /\ skp' = skp - 1 /\ UNCHANGED <<cur, at, look, dep, cdep, trk, log>> /\ UEnv
+  PopRet(TRUE) /\ skp' = skp - 1 /\ evs' = evs \o (IF Both THEN <<TE(FALSE, Top.s0), TE(FALSE, Top.s0)>> ELSE <<TE(FALSE, Top.s0)>>)
+  /\ UNCHANGED <<cur, at, look, dep, cdep, trk, log>> /\ UEnv
 
 --------------------------------------------------------------------------
 (* Entry points (typed_node.rs, rule.rs: parse / parse_without_ignore) *)
@@ -413,14 +454,14 @@ Report(t) == [pos |-> Off(t.pos), att |-> t.att]
 \* try_parse_partial returned: collect, then continue as try_parse would
 PartialDone == pc = "ret" /\ K = <<>> /\
   /\ fin' = [ok |-> ok, endc |-> pos, end |-> Off(pos), toks |-> toks, calls |-> calls, dv |-> dv,
-             stk |-> stk, trk |-> Report(trk), log |-> log]
+             stk |-> stk, trk |-> Report(trk), log |-> log, evs |-> evs]
   /\ IF ~ok THEN pc' = "done" /\ UNCHANGED <<cur, K>>
      ELSE IF EntryTrails THEN pc' = "eval" /\ cur' = SkipExpr /\ K' = <<[f |-> "trail"]>>
      ELSE pc' = "eoi" /\ UNCHANGED <<cur, K>>
-  /\ UNCHANGED <<ok, pos, stk, cfg>> /\ UTree /\ UTrk /\ UDv
+  /\ UNCHANGED <<ok, pos, stk, cfg>> /\ UTree /\ UTrk /\ UDv /\ UEv
 
 TrailDone == Returning("trail") /\ pc' = "eoi" /\ K' = <<>>
-             /\ UNCHANGED <<cur, ok, pos, stk>> /\ UEnv /\ UTree /\ UTrk /\ UDv
+             /\ UNCHANGED <<cur, ok, pos, stk>> /\ UEnv /\ UTree /\ UTrk /\ UDv /\ UEv
 
 \* record_during_with(rule_eoi, EOI): childless rule at the current position
 Finish == pc = "eoi" /\
@@ -429,10 +470,10 @@ Finish == pc = "eoi" /\
   /\ pc' = "done" /\ ok' = b /\ trk' = t2
   /\ log' = Append(log, [r |-> "EOI", at |-> pos, ok |-> b])
   /\ fin' = fin @@ [fullok |-> b, fullend |-> Off(pos), fulltrk |-> Report(t2)]
-  /\ UNCHANGED <<cfg, cur, pos, stk, K, skp>> /\ UTree /\ UDv
+  /\ UNCHANGED <<cfg, cur, pos, stk, K, skp>> /\ UTree /\ UDv /\ UEv
 
 Overflow == pc \in {"eval", "ret"} /\ Len(K) > StackBound /\ pc' = "overflow"
-            /\ UNCHANGED <<cur, ok, pos, stk, K>> /\ UEnv /\ UTree /\ UTrk /\ UDv
+            /\ UNCHANGED <<cur, ok, pos, stk, K>> /\ UEnv /\ UTree /\ UTrk /\ UDv /\ UEv
 
 --------------------------------------------------------------------------
 
@@ -455,7 +496,7 @@ MNext == (Len(K) <= StackBound /\ Step) \/ Overflow
 MInit ==
   /\ pc = "eval" /\ cur = [t |-> "call", n |-> cfg.rule] /\ ok = TRUE
   /\ pos = Lo /\ stk = <<>> /\ K = <<>> /\ at = "N" /\ look = 0 /\ dep = 0
-  /\ toks = <<>> /\ calls = <<>> /\ cdep = 0 /\ trk = EmptyTrk(Lo) /\ skp = 0 /\ dv = <<>> /\ log = <<>>
+  /\ toks = <<>> /\ calls = <<>> /\ cdep = 0 /\ trk = EmptyTrk(Lo) /\ skp = 0 /\ dv = <<>> /\ log = <<>> /\ evs = <<>>
   /\ fin = [ok |-> FALSE]
 
 Halted == pc \in {"done", "diverged", "overflow"}
